@@ -44,8 +44,9 @@ func New(config ...Config) fiber.Handler {
 			allowAllOrigins = true
 			break
 		}
+		origin = utils.Trim(origin, ' ')
 		if i := strings.Index(origin, "://*."); i != -1 {
-			trimmedOrigin := utils.Trim(origin[:i+3]+origin[i+4:], ' ')
+			trimmedOrigin := origin[:i+3] + origin[i+4:]
 			isValid, normalizedOrigin := normalizeOrigin(trimmedOrigin)
 			if !isValid {
 				panic("[CORS] Invalid origin format in configuration: " + trimmedOrigin)
